@@ -207,31 +207,36 @@ class InotifyEmitter(EventEmitter):
 
         # Always listen to delete self
         event_mask = InotifyConstants.IN_DELETE_SELF
+        if self.watch.is_recursive:
+            # Needed to keep following sub-directories that are created, renamed or moved in after the watch started
+            event_mask |= InotifyConstants.IN_MOVE | InotifyConstants.IN_CREATE
 
         for cls in self._event_filter:
-            if cls in {DirMovedEvent, FileMovedEvent}:
+            # A filter class also selects its subclasses (FileSystemEvent, FileSystemMovedEvent)
+            if issubclass(DirMovedEvent, cls) or issubclass(FileMovedEvent, cls):
                 event_mask |= InotifyConstants.IN_MOVE
-            elif cls in {DirCreatedEvent, FileCreatedEvent}:
+            if issubclass(DirCreatedEvent, cls) or issubclass(FileCreatedEvent, cls):
                 event_mask |= InotifyConstants.IN_MOVE | InotifyConstants.IN_CREATE
-            elif cls is DirModifiedEvent:
+            if issubclass(DirModifiedEvent, cls):
                 event_mask |= (
                     InotifyConstants.IN_MOVE
                     | InotifyConstants.IN_ATTRIB
                     | InotifyConstants.IN_MODIFY
                     | InotifyConstants.IN_CREATE
+                    | InotifyConstants.IN_DELETE
                     | InotifyConstants.IN_CLOSE_WRITE
                 )
-            elif cls is FileModifiedEvent:
+            if issubclass(FileModifiedEvent, cls):
                 event_mask |= InotifyConstants.IN_ATTRIB | InotifyConstants.IN_MODIFY
-            elif cls in {DirDeletedEvent, FileDeletedEvent}:
-                event_mask |= InotifyConstants.IN_DELETE
-            elif cls is FileClosedEvent:
+            if issubclass(DirDeletedEvent, cls) or issubclass(FileDeletedEvent, cls):
+                # A move out of the watched tree is reported as a deletion
+                event_mask |= InotifyConstants.IN_MOVE | InotifyConstants.IN_DELETE
+            if issubclass(FileClosedEvent, cls):
                 event_mask |= InotifyConstants.IN_CLOSE_WRITE
-            elif cls is FileClosedNoWriteEvent:
+            if issubclass(FileClosedNoWriteEvent, cls):
                 event_mask |= InotifyConstants.IN_CLOSE_NOWRITE
-            elif cls is FileOpenedEvent:
+            if issubclass(FileOpenedEvent, cls):
                 event_mask |= InotifyConstants.IN_OPEN
-
         return event_mask
 
 
